@@ -350,6 +350,12 @@ def g_long(flags="nc", counts=None):
         out.append(Case(dtd + "<r>" + "&m;t" * k + "</r>", flags, True, meta={"gen": "long-entity-elements", "k": k}))
         out.append(Case("<r " + " ".join("a%d='v%d'" % (i, i) for i in range(k)) + "/>", flags, True, meta={"gen": "long-attributes", "k": k}))
         out.append(Case("<r " + " ".join("xmlns:p%d='u%d'" % (i, i) for i in range(k)) + "><p%d:x/></r>" % (k - 1), flags, True, meta={"gen": "long-ns-decls", "k": k}))
+        # many attributes, two of which share a local name in different namespaces (source order must be kept)
+        attrs = ["zz%d='v%d'" % (k - i, i) for i in range(k)]
+        attrs.insert(k // 2, "p:zz1='w'")
+        e = spec.Elem("", "r", [("p" if a.startswith("p:") else "", a.split("=")[0].split(":")[-1], a.split("'")[1]) for a in attrs], [("p", "u")], [])
+        out.append(Case("<r xmlns:p='u' " + " ".join(attrs) + "/>", flags, True,
+                        meta={"gen": "long-attributes-shared-local", "k": k, "expect_content": spec.expected_content(e)}))
         out.append(Case("<r>" + "<!--c-->" * k + "<?p v?>" * k + "</r>", flags, True, meta={"gen": "long-misc", "k": k}))
         out.append(Case("<" + "n" * k + " " + "a" * k + "='" + "v" * k + "'>" + "t" * k + "</" + "n" * k + ">", flags, True, meta={"gen": "long-names", "k": k}))
         out.append(Case("<r a='" + "x&#32;" * k + "' b='" + " \t" * k + "'/>", flags, True, meta={"gen": "long-attr-value", "k": k}))
